@@ -307,11 +307,65 @@ def iterative_trim(ctx):
                     break
 
 
+def array_range_input(ctx):
+    """directed: the input is the range of an array formula (a buried input range, a range node with a formula of its
+    own whose edges run from the range to its cells) next to a plain input range; the inputs are assigned as ranges.
+    Variants: the cells of the array range are read by another formula or by nothing (they are never built then)."""
+    grids = ([[10], [20], [30]], [[1], [1], [5]], [[0], [-2.5], [4]], [[7], [7], [7]])
+    for members_read, pre, reload_fmt in itertools.product((True, False), (None, 'outputs'), (None, 'yml', 'json', 'pkl')):
+        cells = {'A1': 1, 'A2': 2, 'A3': 3, 'E1': '=SUM(C1:C3)', 'F1': '=E1*10' + ('+D1' if members_read else ''),
+                 'G1': '=MAX(C1:C3)', 'H1': 4, 'H2': 5, 'K1': '=SUM(H1:H2)*E1'}
+        if members_read:
+            cells['D1'] = '=C1+C2+C3'
+        spec = {'sheets': [['S', cells]], 'names': {}, 'arrays': [['S', 'C1:C3', '=A1:A3*2']], 'calc': None}
+        case = {'kind': 'array-range-input', 'members_read': members_read, 'pre': pre, 'reload': reload_fmt}
+        outputs = ['S!F1', 'S!G1', 'S!K1']
+        U, T = wb.compile_mem(spec), wb.compile_mem(spec)
+        for o in outputs:
+            U.evaluate(o)
+            if pre:
+                T.evaluate(o)
+        ctx.count('trims')
+        ctx.count('directed:array_range_input')
+        ctx.case(('array-range-input', members_read, pre, reload_fmt))
+        try:
+            T.trim_graph(['S!C1:C3', 'S!H1:H2'], outputs)
+            if reload_fmt:
+                T = hist.reload(T, reload_fmt, ctx.tmpdir, 'ari')
+        except Exception as exc:
+            if not wb.raised_outside_harness(exc):
+                raise
+            ctx.violation('array-range-input/trim-or-reload-raises/' +
+                          ('cells-of-the-range-read' if members_read else 'cells-of-the-range-never-built'),
+                          f'trim_graph([C1:C3 = {{=A1:A3*2}}, H1:H2], {outputs}) raised {wb.describe(exc)} [{case}]', case)
+            continue
+        for k, grid in enumerate(grids):
+            got = {}
+            for name, model in (('untrimmed', U), ('trimmed', T)):
+                o1 = wb.outcome(model.set_value, 'S!C1:C3', grid, set_as_range=True)
+                o2 = wb.outcome(model.set_value, 'S!H1:H2', [[k], [2 * k]], set_as_range=True)
+                got[name] = [o1[0], o2[0]] + [wb.outcome(model.evaluate, o) for o in outputs]
+            ctx.count('rounds')
+            ctx.count('output_compares', len(outputs))
+            if got['untrimmed'][:2] != ['v', 'v']:
+                ctx.count('array_range_input:untrimmed_refuses_the_assignment')
+                break
+            same = got['trimmed'][:2] == ['v', 'v'] and all(
+                wb.same_outcome(a, b) for a, b in zip(got['untrimmed'][2:], got['trimmed'][2:]))
+            if not same:
+                ctx.violation('array-range-input/output-differs/' + ('trimmed+reload' if reload_fmt else 'trimmed'),
+                              f'C1:C3 := {grid}, H1:H2 := {[[k], [2 * k]]}: untrimmed {got["untrimmed"]}, trimmed '
+                              f'{got["trimmed"]} [{case}]', case)
+                break
+
+
 def run(ctx):
     rng = ctx.rng
     i = 0
     if ctx.shard == 0:
         iterative_trim(ctx)
+    if ctx.shard == 2 % ctx.nshards:
+        array_range_input(ctx)
     # twin runs on the workbooks shipped with the repository
     realbooks.run_cases(ctx, realbooks.c08_case, realbooks.acyclic_books(), 8 if ctx.quick else 80, fraction=0.25)
     while not ctx.out_of_time():
@@ -332,6 +386,9 @@ def replay(ctx, case):
         return
     if case.get('kind') == 'iterative-trim':
         iterative_trim(ctx)
+        return
+    if case.get('kind') == 'array-range-input':
+        array_range_input(ctx)
         return
     one_case(ctx, case['spec'], case['meta'], case['plan'], case['config'], case['pre'], case['reload'],
              case['rounds'] or [])
